@@ -84,6 +84,17 @@ func (g *gctx) block(b *cm.Block, parent *cm.Block) {
 	if k != cm.FencedCodeBlockKind && b.InfoString() != nil {
 		g.add("%v has info string", k)
 	}
+	if k == cm.FencedCodeBlockKind {
+		var first *cm.Inline
+		if n > 0 {
+			if in := b.Child(0).Inline(); in != nil && in.Kind() == cm.InfoStringKind {
+				first = in
+			}
+		}
+		if b.InfoString() != first {
+			g.add("fenced code: InfoString() is not its info string child (%v, child %v)", b.InfoString() != nil, first != nil)
+		}
+	}
 	allInline := func(ok func(i int, k cm.InlineKind) bool) {
 		for i := 0; i < n; i++ {
 			in := b.Child(i).Inline()
@@ -234,6 +245,24 @@ func (g *gctx) inline(in *cm.Inline, inLink bool, inImage bool) {
 			}
 		} else if tail == 1 && in.Child(n-1).Kind() == cm.LinkLabelKind {
 			g.add("label child but empty reference")
+		} else {
+			// the accessors agree with the shape: LinkDestination() and LinkTitle()
+			// are the destination and title children, nil when there is none
+			var wantDest, wantTitle *cm.Inline
+			for i := n - tail; i < n; i++ {
+				switch c := in.Child(i); c.Kind() {
+				case cm.LinkDestinationKind:
+					wantDest = c
+				case cm.LinkTitleKind:
+					wantTitle = c
+				}
+			}
+			if in.LinkDestination() != wantDest {
+				g.add("%v: LinkDestination() is not its destination child (%v, child %v)", k, in.LinkDestination() != nil, wantDest != nil)
+			}
+			if in.LinkTitle() != wantTitle {
+				g.add("%v: LinkTitle() is not its title child (%v, child %v)", k, in.LinkTitle() != nil, wantTitle != nil)
+			}
 		}
 	case cm.CodeSpanKind:
 		kids(func(i int, ck cm.InlineKind) bool { return ck == cm.TextKind || ck == cm.IndentKind }, inLink)
